@@ -29,7 +29,8 @@ Proof. exact lockset_sound. Qed.
 Print Assumptions T17_lockset.
 
 (** T17_inventory (generated obligation): every writable symbol of this build is classified and every access site
-    measured by T-locks satisfies its class; Terminate mirrors Initialize; the locked pool's mutators are guarded. *)
+    measured by T-locks satisfies its class; Terminate mirrors Initialize; every path to a mutation of the locked
+    pool's registry is dominated by the fLocked test; every shared RangeToken has its bitmap built by Initialize. *)
 Theorem T17_inventory : inventory_ok = true.
 Proof. vm_compute. reflexivity. Qed.
 Print Assumptions T17_inventory.
